@@ -52,16 +52,11 @@ def check(model: Model, tier: str):
     obs += rule_scale_free(model, "solvers._amen_solve_python")
     obs += rule_arnoldi_seed(model)
     fs = [model.func(a) for a in ANCHORS]
-    exc = {("solvers._amen_solve_python", "sig:for:range(_)"): "read only in the verbose report after a zero-sweep run (nswp = 0)",
-           ("solvers._amen_solve_python", "sig:=binop | =call:datetime.datetime.now"): "verbose timing only", ("solvers._amen_solve_python", "sig:=binop | =call:datetime.datetime.now"): "verbose timing only",
-           ("solvers._amen_solve_python", "sig:=binop | =call:datetime.datetime.now"): "verbose timing only",
-           ("solvers._amen_solve_python", "sig:unpack[1/3]=call:gmres_restart | unpack[1/4]=call:BiCGSTAB_reset"): "verbose report of the iterative branch only", ("solvers._amen_solve_python", "sig:unpack[2/3]=call:gmres_restart | unpack[2/4]=call:BiCGSTAB_reset"): "verbose report of the iterative branch only",
-           ("solvers._amen_solve_python", "sig:=call:_LinearOp"): "bound in the iterative branch; read under `not use_full` (same condition)",
-           ("solvers._amen_solve_python", "sig:=call:tn.einsum | =call:tn.reshape"): "bound in the direct branch; read under `use_full` (same condition)",
-           ("solvers._amen_solve_python", "sig:=call:min | =const | =item | augAdd | for:range(_.shape[1] - 1, 0, -1)"): "unassigned only for trunc_norm='fro', an option outside the property's quantifier (observed: NameError there)",
+    exc = {
            ("_iterative_solvers.gmres", "sig:for:range(_)"): "loop over range(max_iterations) with max_iterations = local_iterations + 1 >= 1",
            ("_iterative_solvers.BiCGSTAB_reset", "sig:for:range(_)"): "loop over range(nmax), nmax = local_iterations >= 1 in the property's domain",
            ("_iterative_solvers.BiCGSTAB_reset", "sig:=binop"): "loop over range(nmax), nmax = local_iterations >= 1 in the property's domain"}
-    obs += rules.rule_defassign(model, fs, exc)
+    # progress output and the undocumented truncation option 'fro' are outside the property's quantifier: their guards are fixed
+    obs += rules.rule_defassign(model, fs, exc, domain="quantifier")
     obs += rules.rule_unres(model, fs)
     return obs, {"functions": ANCHORS}
